@@ -101,7 +101,7 @@ def check(run):
     r = gen.rng_for(run.seed, "c03")
     for i in range(6000 if thorough else 1500):
         s = strgen.build(r, "R%d" % i, list(A_DERIVES), allow_default=False, allow_aci=True, allow_prefix=True, distinct_lengths=True,
-                         generics_pool=(None, None, "T", "N", "Tw", "Tdef"), n=(40 if i in (5, 6) else r.choice([1, 2, 3, 5, 7])), dup_within_variant=False, allow_braces=True)
+                         generics_pool=(None, None, "T", "N", "Tw", "Tdef", "Tnd", "NT"), n=(40 if i in (5, 6) else r.choice([1, 2, 3, 5, 7])), dup_within_variant=False, allow_braces=True)
         s.const_into_str = r.random() < 0.4
         specs.append(s)
     # canonical names shared by several variants (legal without EnumString): VARIANTS keeps one entry per variant
